@@ -37,7 +37,7 @@ theorem ft_lengths (x y xo : List ℝ) (xmin xmax : Option ℝ) (dy : Option (Li
     (Transformer.fourier_transform kw junk x y xo xmin xmax dy).2.2.length = xo.length := by
   simp only [Transformer.fourier_transform]
   constructor
-  · split_ifs <;> simp [Transformer._low_x_correction, Vec.add, Vec.zerosLike]
+  · split_ifs <;> (try simp only [Transformer._low_x_correction, Vec.add, Vec.zerosLike]) <;> (try split_ifs) <;> simp
   · simp
 
 /-- the low-r piece the filter transforms back: (r, g+1, dg) restricted to [0, cutoff] -/
